@@ -576,7 +576,11 @@ func runVDAF[M, A, AggShare, InputShare, OutShare, PrepShare, PrepState any](
 	// unsharding twice and marshalling afterwards must give the same answers
 	got2, err := v.Unshard(final, uint(len(accepted)))
 	if err != nil || !reflect.DeepEqual(*got2, want) {
-		run.Violate(comp+".Unshard", "second-unshard-differs", "err=%v got %v want %v", err, got2, want)
+		var shown any = "nothing"
+		if got2 != nil {
+			shown = *got2
+		}
+		run.Violate(comp+".Unshard", "second-unshard-differs", "err=%v got %v want %v", err, shown, want)
 	}
 }
 
